@@ -21,18 +21,19 @@ import (
 
 // Inst is one bounded instance of a harness.
 type Inst struct {
-	Pkg        string
-	Fn         string
-	Args       []int64
-	Unwind     int
-	MaxPaths   int
-	Ctx        int  // context-switch bound (0 = unbounded)
-	Race       bool // happens-before race check
-	MaxSched   int
-	Note       string
-	NoNative   bool     // concurrency harness: no deterministic native replay
-	KnownRaces []string // substrings of race descriptions listed as known findings
-	RandChoice bool     // math/rand.Float64 = one of {0, 0.5, 0.9999999} instead of a symbolic float
+	Pkg         string
+	Fn          string
+	Args        []int64
+	Unwind      int
+	MaxPaths    int
+	Ctx         int  // context-switch bound (0 = unbounded)
+	Race        bool // happens-before race check
+	MaxSched    int
+	Note        string
+	ForceNative bool     // replayed natively although the spec is engine-only (schedule-independent outcome)
+	NoNative    bool     // concurrency harness: no deterministic native replay
+	KnownRaces  []string // substrings of race descriptions listed as known findings
+	RandChoice  bool     // math/rand.Float64 = one of {0, 0.5, 0.9999999} instead of a symbolic float
 }
 
 func (i Inst) Key() string { return fmt.Sprintf("%s.%s%v", i.Pkg, i.Fn, i.Args) }
@@ -465,7 +466,7 @@ func runCheck(prop, tier string, opt options) int {
 	}
 	if spec.NoNative {
 		for i := range insts {
-			insts[i].NoNative = true
+			insts[i].NoNative = !insts[i].ForceNative
 		}
 	}
 	if spec.Solver != "" && !opt.solverSet {
@@ -489,7 +490,7 @@ func runCheck(prop, tier string, opt options) int {
 		qi := spec.Quick(l)
 		if spec.NoNative {
 			for i := range qi {
-				qi[i].NoNative = true
+				qi[i].NoNative = !qi[i].ForceNative
 			}
 		}
 		opt2 := opt
